@@ -17,7 +17,7 @@ import sys
 import time
 
 VERIF = os.path.dirname(os.path.dirname(os.path.abspath(__file__)))
-SCR = "/tmp/mv"
+SCR = os.environ.get("SEEDED_SCR", "/tmp/mv")
 TARGET = os.path.join(SCR, "target")
 
 
